@@ -999,7 +999,27 @@ func (c *Ctx) invoke(s *State, fr *Frame, x *ssa.Call, com *ssa.CallCommon, args
 		return c.freshResults(s, "r."+mname, sig.Results())
 	}
 	if n := namedOf(it); n != nil && n.Obj().Pkg() != nil && !strings.HasPrefix(n.Obj().Pkg().Path(), c.eng.modPath) {
-		c.assumptions["methods of out-of-module interface "+typeName(it)+" do not modify modelled state"] = true
+		// like any other library callee without a contract: it may write the elements of its slice arguments (io.Reader.Read,
+		// cipher.AEAD.Seal/Open, hash.Hash.Sum) and the pointees of its pointer arguments, nothing else that is modelled
+		c.assumptions["methods of out-of-module interface "+typeName(it)+" write at most the elements of their slice arguments and the pointees of their pointer arguments"] = true
+		var mods []modEntry
+		for i, a := range args {
+			if i == 0 {
+				continue // the receiver: an object of the library, not modelled
+			}
+			switch v := a.(type) {
+			case SliceV:
+				el := v.Ty.Underlying().(*types.Slice).Elem()
+				c.elemEntries(v.Arr, el, true, nil, &mods)
+			case Scalar:
+				if pt, ok := v.Ty.Underlying().(*types.Pointer); ok && v.S == SRef && isAggregate(pt.Elem()) {
+					c.allFieldEntries(v.T, pt.Elem(), &mods)
+				}
+			}
+		}
+		if len(mods) > 0 {
+			c.havocMods(s, mods, "")
+		}
 		return c.freshResults(s, "r."+mname, sig.Results())
 	}
 	c.lastCallee = key
